@@ -238,6 +238,10 @@ theorem join_relayout : ∀ (stmts : List (String × Nat × Nat)) (line : Nat),
     rw [this]
 
 
+/-- a program: expressions with their first / last source line; its formatted text -/
+def formatProgram (w : Option Nat) (prog : List (Expr × Nat × Nat)) : String :=
+  joinStatementsWithSpacing (prog.map fun x => (formatExpr x.1 w, x.2.1, x.2.2))
+
 /-! ### do-blocks never print on one line -/
 
 mutual
